@@ -27,7 +27,13 @@ const DTS: &[&str] = &[
 ];
 
 fn g_str(r: &mut StdRng) -> String {
-    STRS[r.gen_range(0..STRS.len())].to_string()
+    if r.gen_range(0..3) == 0 {
+        // combinations of the byte classes the writers distinguish
+        let n = r.gen_range(1..6);
+        (0..n).map(|_| crate::api_ev::QALPHA[r.gen_range(0..crate::api_ev::QALPHA.len())]).collect()
+    } else {
+        STRS[r.gen_range(0..STRS.len())].to_string()
+    }
 }
 fn g_key(r: &mut StdRng) -> String {
     KEYS[r.gen_range(0..KEYS.len())].to_string()
@@ -120,10 +126,12 @@ pub enum E {
     Struct { x: i64, y: Option<String> },
     NewInner(Inner),
     NewVec(Vec<i64>),
+    Pair(Inner, Inner),
 }
 impl Gen for E {
     fn gen(r: &mut StdRng) -> Self {
-        match r.gen_range(0..7) {
+        match r.gen_range(0..8) {
+            7 => E::Pair(Inner::gen(r), Inner::gen(r)),
             0 => E::Unit,
             1 => E::New(g_i64(r)),
             2 => E::NewS(g_str(r)),
@@ -302,6 +310,52 @@ impl Gen for Wide {
         Wide { a: [0, -1, i64::MAX as i128 + 1, i128::MIN][r.gen_range(0..4)], b: [0, 1, u64::MAX as u128, u128::MAX][r.gen_range(0..4)] }
     }
 }
+#[derive(Serialize, Deserialize, PartialEq, Debug, Clone)]
+pub struct MapVecOpt {
+    m: BTreeMap<String, Vec<Option<i64>>>,
+    n: BTreeMap<String, Inner>,
+}
+impl Gen for MapVecOpt {
+    fn gen(r: &mut StdRng) -> Self {
+        MapVecOpt { m: g_map(r, |r| g_vec(r, |r| g_opt(r, g_i64))), n: g_map(r, Inner::gen) }
+    }
+}
+#[derive(Serialize, Deserialize, PartialEq, Debug, Clone)]
+pub struct FlatPart {
+    values: Vec<Option<i64>>,
+    name: String,
+}
+#[derive(Serialize, Deserialize, PartialEq, Debug, Clone)]
+pub struct Flat {
+    id: i64,
+    #[serde(flatten)]
+    part: FlatPart,
+}
+impl Gen for Flat {
+    fn gen(r: &mut StdRng) -> Self {
+        Flat { id: g_i64(r), part: FlatPart { values: g_vec(r, |r| g_opt(r, g_i64)), name: g_str(r) } }
+    }
+}
+#[derive(Serialize, Deserialize, PartialEq, Debug, Clone)]
+pub struct Entry {
+    tags: Vec<String>,
+    meta: Inner,
+    more: Vec<Inner>,
+}
+#[derive(Serialize, Deserialize, PartialEq, Debug, Clone)]
+pub struct Rows {
+    name: String,
+    rows: Vec<Vec<Entry>>,
+    mixed: (Vec<i64>, Entry, i64),
+}
+fn g_entry(r: &mut StdRng) -> Entry {
+    Entry { tags: g_vec(r, g_str), meta: Inner::gen(r), more: g_vec(r, Inner::gen) }
+}
+impl Gen for Rows {
+    fn gen(r: &mut StdRng) -> Self {
+        Rows { name: g_str(r), rows: g_vec(r, |r| g_vec(r, g_entry)), mixed: (g_vec(r, g_i64), g_entry(r), g_i64(r)) }
+    }
+}
 // roots that are not tables
 #[derive(Serialize, Deserialize, PartialEq, Debug, Clone)]
 pub struct RootSeq(Vec<i64>);
@@ -325,7 +379,9 @@ impl Gen for NewI {
 /// and tables (C17)
 fn g_value(r: &mut StdRng, depth: u32) -> toml::Value {
     use toml::Value as V;
-    match r.gen_range(0..if depth == 0 { 6 } else { 10 }) {
+    match r.gen_range(0..if depth == 0 { 7 } else { 11 }) {
+        6 if depth == 0 => V::Array(vec![V::Table(g_table(r, 0)), V::Integer(g_i64(r)), V::Array(vec![V::Table(g_table(r, 0))])]),
+        10 => V::Array(vec![V::Table(g_table(r, depth - 1)), V::String(g_str(r))]),
         0 => V::Integer(g_i64(r)),
         1 => V::String(g_str(r)),
         2 => V::Boolean(r.gen()),
@@ -340,7 +396,7 @@ fn g_value(r: &mut StdRng, depth: u32) -> toml::Value {
 fn g_table(r: &mut StdRng, depth: u32) -> toml::Table {
     let mut t = toml::Table::new();
     let names = ["a", "b", "c", "d", "e", "z", "A", "k", "", "a b"];
-    let n = r.gen_range(0..5);
+    let n = r.gen_range(0..6);
     for _ in 0..n {
         let k = names[r.gen_range(0..names.len())];
         t.insert(k.to_string(), g_value(r, depth));
@@ -353,6 +409,40 @@ pub struct ValueRoot(toml::Table);
 impl Gen for ValueRoot {
     fn gen(r: &mut StdRng) -> Self {
         ValueRoot(g_table(r, 2))
+    }
+}
+
+/// The shape of a `toml::Value` read through its public accessors (not through its own `Serialize` impl, which
+/// is code under test).
+fn sdm_of_value(v: &toml::Value) -> J {
+    use toml::Value as V;
+    match v {
+        V::String(s) => json!({"k": "str", "v": cps(s)}),
+        V::Integer(i) => {
+            let d: Vec<u32> = (*i as i128).unsigned_abs().to_string().bytes().map(|b| (b - b'0') as u32).collect();
+            json!({"k": "int", "w": "i64", "neg": *i < 0, "d": d})
+        }
+        V::Float(f) => json!({"k": "float", "w": "f64", "f": proj::float_j(*f)}),
+        V::Boolean(b) => json!({"k": "bool", "v": b}),
+        V::Datetime(d) => json!({"k": "dt", "v": proj::dt_j(d)}),
+        V::Array(a) => json!({"k": "seq", "v": a.iter().map(sdm_of_value).collect::<Vec<_>>()}),
+        V::Table(t) => sdm_of_table(t),
+    }
+}
+fn sdm_of_table(t: &toml::Table) -> J {
+    json!({"k": "map", "v": t.iter().map(|(k, v)| json!({"key": {"k": "str", "v": cps(k)}, "val": sdm_of_value(v)})).collect::<Vec<_>>()})
+}
+
+pub trait Shape {
+    fn shape(&self) -> J;
+}
+macro_rules! shape_by_capture {
+    ($($t:ty),*) => { $(impl Shape for $t { fn shape(&self) -> J { capture(self) } })* };
+}
+shape_by_capture!(Leafs, Opts, Seqs, Maps, Nested, Inner, NewT, NewI, E, VecOpt, IntKeys, Wide, RootSeq, MapVecOpt, Flat, Rows, BTreeMap<String, E>);
+impl Shape for ValueRoot {
+    fn shape(&self) -> J {
+        json!({"k": "newtype", "v": sdm_of_table(&self.0)})
     }
 }
 
@@ -376,7 +466,7 @@ fn dec_route<T: PartialEq>(name: &str, orig: &T, f: impl FnOnce() -> Result<T, S
 /// NaN != NaN: compare through the captured shape instead of PartialEq
 #[derive(Debug, Clone)]
 struct ByShape<T>(T);
-impl<T: Serialize> PartialEq for ByShape<T> {
+impl<T: Shape> PartialEq for ByShape<T> {
     fn eq(&self, o: &Self) -> bool {
         // the sign of a NaN is documented as discarded by the serde serializers
         fn norm(mut j: J) -> J {
@@ -403,14 +493,14 @@ impl<T: Serialize> PartialEq for ByShape<T> {
             walk(&mut j);
             j
         }
-        norm(capture(&self.0)) == norm(capture(&o.0))
+        norm(self.0.shape()) == norm(o.0.shape())
     }
 }
 
 static SEQ: std::sync::atomic::AtomicU64 = std::sync::atomic::AtomicU64::new(0);
 
-fn one<T: Serialize + DeserializeOwned + Clone>(out: &mut dyn Write, ty: &str, n: u64, v: T) {
-    let sdm = capture(&v);
+fn one<T: Serialize + DeserializeOwned + Clone + Shape>(out: &mut dyn Write, ty: &str, n: u64, v: T) {
+    let sdm = v.shape();
     let orig = ByShape(v.clone());
     let mut enc = Vec::new();
     enc.push(enc_route("toml::to_string", || toml::to_string(&v).map_err(|e| e.to_string())));
@@ -491,10 +581,14 @@ pub fn serde_events(args: &Args) {
         one(&mut out, "Nested", i, Nested::gen(&mut r));
         one(&mut out, "Inner", i, Inner::gen(&mut r));
         one(&mut out, "NewT", i, NewT::gen(&mut r));
-        one(&mut out, "Value", i, ValueRoot::gen(&mut r));
-        one(&mut out, "Value", i, ValueRoot::gen(&mut r));
+        one(&mut out, "Rows", i, Rows::gen(&mut r));
+        for _ in 0..6 {
+            one(&mut out, "Value", i, ValueRoot::gen(&mut r));
+        }
         if i % 4 == 0 {
             one(&mut out, "VecOpt", i, VecOpt::gen(&mut r));
+            one(&mut out, "MapVecOpt", i, MapVecOpt::gen(&mut r));
+            one(&mut out, "Flat", i, Flat::gen(&mut r));
             one(&mut out, "IntKeys", i, IntKeys::gen(&mut r));
             one(&mut out, "Wide", i, Wide::gen(&mut r));
             one(&mut out, "RootSeq", i, RootSeq::gen(&mut r));
